@@ -25,7 +25,7 @@ STUB = ["peer = scripted reference peer replying at exact virtual instants (ref/
 ASSUMPTIONS = ["'reply arrives' is read as 'reply is processed by the client thread' (ready/error serve at most one pending message per "
                "query, so they may lag; they must never run ahead and never go back)",
                "exact ties between an arrival and an expiry, and negative timeouts, are not generated in the exact-model runs"]
-PROBES = ["c15:timeout-raised", "c15:late-reply-discarded", "c15:callback-after-ready", "c15:busy-delayed-timeout", "c15:timed-wrapper-reused"]
+PROBES = ["c15:timeout-raised", "c15:late-reply-discarded", "c15:callback-after-ready", "c15:busy-delayed-timeout", "c15:timed-wrapper-reused", "c15:callback-registered-during-delivery"]
 
 E8 = 0.125
 
@@ -72,8 +72,14 @@ class Model(object):
         r["state"] = "ready"
         r["tready"] = self.now
         for name in r["cbs"]:
-            self.cblog.append((name, key, self.now))
+            self.fire(name, key)
         r["cbs"] = []
+
+    def fire(self, name, key):
+        self.cblog.append((name, key, self.now))
+        if name.endswith("*"):
+            # this callback registers another one on the same (now ready) result: that one runs at once, exactly once
+            self.cblog.append((name + "+in", key, self.now))
 
     def serve(self, limit):
         """one conn.serve(timeout): wait until a message is there or the limit passes"""
@@ -127,7 +133,7 @@ def run_one(choices, params):
     for n in range(4 + w.draw(9)):
         i = w.draw(nreq)
         what = w.pick(("wait", "value", "ready", "ready", "error", "expired", "repr", "cb", "cb", "set_expiry"))
-        arg = w.pick((0, E8, 0.5, 1.0, 2.0)) if what == "set_expiry" else None     # finite only: re-arming a discarded result with None waits forever by construction
+        arg = w.pick((0, E8, 0.5, 1.0, 2.0)) if what == "set_expiry" else (w.draw(3) == 0 if what == "cb" else None)     # finite only: re-arming a discarded result with None waits forever by construction
         actions.append((reqs[i]["t"] + w.draw(28) * E8, 1 + n, what, i, arg))
     actions.sort(key=lambda a: (a[0], a[1]))
     obs = []
@@ -200,6 +206,9 @@ def run_one(choices, params):
         def mkcb(name):
             def cbf(r):
                 cblog.append((name, [k2 for k2, v in res.items() if v is r][0], sim.now))
+                if name.endswith("*"):
+                    sim.count("c15:callback-registered-during-delivery")
+                    r.add_callback(mkcb(name + "+in"))
             return cbf
 
         ncb = [0]
@@ -258,7 +267,7 @@ def run_one(choices, params):
                     out = ("repr", repr(res[i]).split("(")[1].split(")")[0])
                 elif what == "cb":
                     ncb[0] += 1
-                    name = "cb%d" % ncb[0]
+                    name = "cb%d%s" % (ncb[0], "*" if arg else "")
                     res[i].add_callback(mkcb(name))
                     out = ("cb", name)
                 elif what == "set_expiry":
@@ -341,7 +350,7 @@ def compare(reqs, busy, actions, obs, cblog, S, info, sim):
         elif what == "cb":
             name = o[3][1] if o[3] and o[3][0] == "cb" else "?"
             if m.req[i]["state"] == "ready":
-                m.cblog.append((name, i, m.now))
+                m.fire(name, i)
                 sim.count("c15:callback-after-ready")
             else:
                 m.req[i]["cbs"].append(name)
